@@ -650,7 +650,11 @@ class Effect(DaeObject):
                 except DaeMissingSampler2D as ex:
                     if ex.samplerid in collada.images:
                         # Whoever exported this collada file didn't include the proper references so we will create them
-                        surf = Surface(ex.samplerid + '-surface', collada.images[ex.samplerid], 'A8R8G8B8')
+                        surfid = ex.samplerid + '-surface'
+                        while surfid in localscope or surfid in collada.images:
+                            # must not hide a parameter, nor the sampler made up for an image of that name
+                            surfid += '-surface'
+                        surf = Surface(surfid, collada.images[ex.samplerid], 'A8R8G8B8')
                         sampler = Sampler2D(ex.samplerid, surf, None, None)
                         params.append(surf)
                         params.append(sampler)
